@@ -6,53 +6,21 @@ Equality is over an arbitrary commutative ring: a rewrite of a kernel that keeps
 over the reals (reordered operands, a different but equivalent bit test) still proves, a
 change of its arithmetic does not.
 -/
-import Qvnt.Lemmas.GenKTac
-
-namespace Qvnt.Gen
-open Qvnt
-
-variable {R : Type}
-
-section ops
-variable [CommRing R] [Consts R]
-
-theorem id_op_eq (ψ : State R) (idx : Nat) : Gen.id_op ψ idx = (Atom.id : Atom R).op ψ idx := by
-  unfold Gen.id_op; kernel_eq
-theorem x_op_eq (a : Nat) (ψ : State R) (idx : Nat) : Gen.x_op a ψ idx = (Atom.x a : Atom R).op ψ idx := by
-  unfold Gen.x_op; kernel_eq
-theorem y_op_eq (a p : Nat) (ψ : State R) (idx : Nat) : Gen.y_op a p ψ idx = (Atom.y a p : Atom R).op ψ idx := by
-  unfold Gen.y_op; kernel_eq
-theorem z_op_eq (a : Nat) (ψ : State R) (idx : Nat) : Gen.z_op a ψ idx = (Atom.z a : Atom R).op ψ idx := by
-  unfold Gen.z_op; kernel_eq
-theorem s_op_eq (a : Nat) (d : Bool) (ψ : State R) (idx : Nat) : Gen.s_op a d ψ idx = (Atom.s a d : Atom R).op ψ idx := by
-  unfold Gen.s_op; kernel_eq
-theorem t_op_eq (a : Nat) (d : Bool) (ψ : State R) (idx : Nat) : Gen.t_op a d ψ idx = (Atom.t a d : Atom R).op ψ idx := by
-  unfold Gen.t_op; kernel_eq
-theorem rx_op_eq (a : Nat) (ph : Cx R) (ψ : State R) (idx : Nat) : Gen.rx_op a ph ψ idx = (Atom.rx a ph).op ψ idx := by
-  unfold Gen.rx_op; kernel_eq
-theorem ry_op_eq (a : Nat) (ph : Cx R) (ψ : State R) (idx : Nat) : Gen.ry_op a ph ψ idx = (Atom.ry a ph).op ψ idx := by
-  unfold Gen.ry_op; kernel_eq
-theorem rz_op_eq (a : Nat) (ph : Cx R) (ψ : State R) (idx : Nat) : Gen.rz_op a ph ψ idx = (Atom.rz a ph).op ψ idx := by
-  unfold Gen.rz_op; kernel_eq
-theorem rxx_op_eq (a : Nat) (ph : Cx R) (ψ : State R) (idx : Nat) : Gen.rxx_op a ph ψ idx = (Atom.rxx a ph).op ψ idx := by
-  unfold Gen.rxx_op; kernel_eq
-theorem ryy_op_eq (a : Nat) (ph : Cx R) (ψ : State R) (idx : Nat) : Gen.ryy_op a ph ψ idx = (Atom.ryy a ph).op ψ idx := by
-  unfold Gen.ryy_op; kernel_eq
-theorem rzz_op_eq (a : Nat) (ph : Cx R) (ψ : State R) (idx : Nat) : Gen.rzz_op a ph ψ idx = (Atom.rzz a ph).op ψ idx := by
-  unfold Gen.rzz_op; kernel_eq
-theorem h1_op_eq (a : Nat) (ψ : State R) (idx : Nat) : Gen.h1_op a ψ idx = (Atom.h1 a : Atom R).op ψ idx := by
-  unfold Gen.h1_op; kernel_eq
-theorem h2_op_eq (a b ab : Nat) (ψ : State R) (idx : Nat) : Gen.h2_op a b ab ψ idx = (Atom.h2 a b ab : Atom R).op ψ idx := by
-  unfold Gen.h2_op; kernel_eq
-theorem swap_op_eq (ab : Nat) (ψ : State R) (idx : Nat) : Gen.swap_op ab ψ idx = (Atom.swap ab : Atom R).op ψ idx := by
-  unfold Gen.swap_op; kernel_eq
-theorem i_swap_op_eq (ab : Nat) (d : Bool) (ψ : State R) (idx : Nat) : Gen.i_swap_op ab d ψ idx = (Atom.iSwap ab d : Atom R).op ψ idx := by
-  unfold Gen.i_swap_op; kernel_eq
-theorem sqrt_swap_op_eq (ab : Nat) (d : Bool) (ψ : State R) (idx : Nat) : Gen.sqrt_swap_op ab d ψ idx = (Atom.sqrtSwap ab d : Atom R).op ψ idx := by
-  unfold Gen.sqrt_swap_op; kernel_eq
-theorem sqrt_i_swap_op_eq (ab : Nat) (d : Bool) (ψ : State R) (idx : Nat) : Gen.sqrt_i_swap_op ab d ψ idx = (Atom.sqrtISwap ab d : Atom R).op ψ idx := by
-  unfold Gen.sqrt_i_swap_op; kernel_eq
-
-end ops
-
-end Qvnt.Gen
+import Qvnt.Lemmas.GenKOps.id_op_eq
+import Qvnt.Lemmas.GenKOps.x_op_eq
+import Qvnt.Lemmas.GenKOps.y_op_eq
+import Qvnt.Lemmas.GenKOps.z_op_eq
+import Qvnt.Lemmas.GenKOps.s_op_eq
+import Qvnt.Lemmas.GenKOps.t_op_eq
+import Qvnt.Lemmas.GenKOps.rx_op_eq
+import Qvnt.Lemmas.GenKOps.ry_op_eq
+import Qvnt.Lemmas.GenKOps.rz_op_eq
+import Qvnt.Lemmas.GenKOps.rxx_op_eq
+import Qvnt.Lemmas.GenKOps.ryy_op_eq
+import Qvnt.Lemmas.GenKOps.rzz_op_eq
+import Qvnt.Lemmas.GenKOps.h1_op_eq
+import Qvnt.Lemmas.GenKOps.h2_op_eq
+import Qvnt.Lemmas.GenKOps.swap_op_eq
+import Qvnt.Lemmas.GenKOps.i_swap_op_eq
+import Qvnt.Lemmas.GenKOps.sqrt_swap_op_eq
+import Qvnt.Lemmas.GenKOps.sqrt_i_swap_op_eq
